@@ -232,6 +232,31 @@ def helpers_sweep(tier="quick", seed=0):
                     for data in itertools.product((0, 1), repeat=n):
                         S.run("BitwiseCrc._calc_steps", (w, poly, reg, data),
                               lambda: int(s_of(crc._calc_steps(bv(format(reg, f"0{w}b")), *[Bit(d) for d in data])), 2), crc_ref(reg, poly, w, data))
+    # the whole helper object: messages fed bit by bit and several bits per step, clear() between messages, every
+    # initial value -- the register must follow the polynomial-division definition started from the INITIAL value
+    def reg_of(c):
+        return int(s_of(c._reg), 2)
+
+    for w in (3, 4):
+        for poly in (0b011, 0b101) if w == 3 else (0b0011, 0b1001):
+            for init_name, init in (("Null", Null), ("Full", Full), ("literal", bv(format(5 % 2**w, f"0{w}b")))):
+                init_int = {"Null": 0, "Full": 2**w - 1, "literal": 5 % 2**w}[init_name]
+                for msgs in itertools.product(list(itertools.product((0, 1), repeat=2)) + [(1, 0, 1)], repeat=2):
+                    def run_messages():
+                        crc = BitwiseCrc(bv(format(poly, f"0{w}b")), initial_value=init)
+                        out = []
+                        for k, m in enumerate(msgs):
+                            if k:
+                                crc.clear()
+                            if k % 2 == 0:
+                                for d in m:
+                                    crc.update(Bit(d))
+                            else:
+                                crc.update_multiple(*[Bit(d) for d in m])
+                            out.append(reg_of(crc))
+                        return out
+
+                    S.run("BitwiseCrc(messages)", (w, poly, init_name, msgs), run_messages, [crc_ref(init_int, poly, w, m) for m in msgs])
     violations = []
     for f in S.fail:
         violations.append({
